@@ -3,6 +3,7 @@
 mod artefacts;
 mod certeval;
 mod certspace;
+mod corpus;
 mod glue;
 mod keys;
 mod run;
